@@ -121,7 +121,7 @@ Definition index_of_proximal (es : list bpm_event) (tick h : Z) : result Z :=
     if last <? h then Err EValue
     else match skipn (Z.to_nat h) es with
          | [] => Err EIndex                          (* unreachable: h <= last *)
-         | first :: _ as l =>
+         | (first :: _) as l =>
              if tick <? b_tick first then Err EValue
              else Ok (scan_from l h tick)
          end.
